@@ -70,15 +70,15 @@ GROUP = {
             expr::Expr::Unary(e) => { lemma_unary_len(*e, *self.context); lemma_op_len(e.op, expr::BinaryOp::Add); lemma_expr_align_inside(*e.expr, *self.context); }
             expr::Expr::Binary(e) => { lemma_binary_len(*e, *self.context); lemma_expr_align_inside(*e.lhs, *self.context); lemma_expr_align_inside(*e.rhs, *self.context); }
             _ => {} } }""",
-                  rewrites=[("R52-box-as-ref", "re:\\b(\\w+(?:\\.\\w+)?)\\.as_ref\\(\\)", "box_ref(&\\1)", 4), ("R34d-result-map", "re:(self\\s*\\.pass_context\\(box_ref\\(&e\\.expr\\)\\)\\s*\\.fmt_with_alignment\\(f\\))\\s*\\.map\\(\\|(\\w+)\\|\\s*(\\w+\\.plus\\([^)]*\\))\\)",
-                             "match \\1 { Ok(\\2) => Ok(\\3), Err(e__) => Err(e__) }", 1)]),
+                  rewrites=[("R52-box-as-ref", "re:\\b(\\w+(?:\\.\\w+)?)\\.as_ref\\(\\)", "box_ref(&\\1)", None), ("R34d-result-map", "re:(self\\s*\\.pass_context\\(box_ref\\(&e\\.expr\\)\\)\\s*\\.fmt_with_alignment\\(f\\))\\s*\\.map\\(\\|(\\w+)\\|\\s*(\\w+\\.plus\\([^)]*\\))\\)",
+                             "match \\1 { Ok(\\2) => Ok(\\3), Err(e__) => Err(e__) }", "opt")]),
         impl_unit("fmt_with_alignment for Amount", r"impl DisplayWithAlignment for WithContext<'_, expr::Amount<'_>>",
-                  rewrites=[("R24-str-model", "re:\\b(\\w+)\\.as_str\\(\\)\\.len\\(\\)", "str_byte_len(\\1.as_str())", 2), ("R51-to-string", "re:(rescale\\([^;]*?\\))\\.to_string\\(\\)", "to_string_of(&\\1)", 1)]),
+                  rewrites=[("R24-str-model", "re:\\b(\\w+)\\.as_str\\(\\)\\.len\\(\\)", "str_byte_len(\\1.as_str())", None), ("R51-to-string", "re:(rescale\\([^;]*?\\))\\.to_string\\(\\)", "to_string_of(&\\1)", 1)]),
         # the blanket `impl Display for WithContext<T> where Self: DisplayWithAlignment`: `{}` prints what fmt_with_alignment appends
         U("Display for WithContext<T: DisplayWithAlignment>", D, [r"impl<T> fmt::Display for WithContext<'_, T>"], fn="fmt", lifetimes="keep",
       rewrites=[RET(), ("R1-formatter", "fmt::Formatter<'_>", "fmt::Formatter", 1),
                 ("R8-drop-trait", "impl<T> fmt::Display for WithContext<'_, T>", "impl<T> WithContext<'_, T>", 1),
-                ("R34d-result-map", "re:(self\\.fmt_with_alignment\\(f\\))\\.map\\(\\|_\\| \\(\\)\\)", "match \\1 { Ok(_) => Ok(()), Err(e__) => Err(e__) }", 1)],
+                ("R34d-result-map", "re:(self\\.fmt_with_alignment\\(f\\))\\.map\\(\\|_\\| \\(\\)\\)", "match \\1 { Ok(_) => Ok(()), Err(e__) => Err(e__) }", "opt")],
       contract="""
         requires utf8_len(self.tx()) <= usize::MAX,
         ensures
